@@ -141,13 +141,18 @@ def outcome(abbr, cfg):
     def on_alarm(sig, frm):
         raise Hang()
     # CPU time of this process (ITIMER_PROF), not wall time: independent of the load of the machine
+    import lorem_oracle as lo
     old = signal.signal(signal.SIGPROF, on_alarm)
     signal.setitimer(signal.ITIMER_PROF, HANG_S)
     try:
-        out = expand(abbr, copy.deepcopy(cfg))
+        # lorem text under the deterministic oracle of this case (harness/lorem_oracle.py): the model gets the same draws
+        with lo.patched(lo.Oracle(lo.seed_of(abbr, cfg))):
+            out = expand(abbr, copy.deepcopy(cfg))
         r = ('ok', out) if isinstance(out, str) else ('notstr', type(out).__name__)
     except Hang:
         r = ('hang',)
+    except lo.OracleLimit:
+        r = ('oracle-limit',)               # more lorem words than the draw limit (300000 draws): not a question of safety
     except Exception as e:  # noqa
         r = classify(e)
     finally:
@@ -257,7 +262,7 @@ def user_snippet_lengths(cfg):
 
 def oracle(abbr, cfg, r):
     """The C07 statement on one implementation outcome: None or a description of the failure."""
-    if r[0] == 'ok':
+    if r[0] in ('ok', 'oracle-limit'):
         return None
     if r[0] == 'notstr':
         return 'expand returned a %s, not a string' % r[1]
@@ -666,16 +671,18 @@ def run_markup(ctx, model_ok=True):
             enc[ci] = None
         except Exception as e:  # a configuration the real Config rejects: implementation-only
             enc[ci] = None
-    lorem_cfg = {ci: mentions_lorem('', cfg) for ci, cfg in enumerate(cs.cfgs)}
+    import lorem_oracle as lo
     wires, idx = [], []
     for k, (abbr, ci, tag) in enumerate(cs.items):
         if enc[ci] is None:
             ctx.cover('markup:not-modelled(option type)')
             continue
-        if lorem_cfg[ci] or 'lorem' in abbr.lower():
-            ctx.cover('markup:not-compared(lorem)')
-            continue
-        wires.append([2] + enc[ci] + enc_str(abbr))
+        if lo.lorem_like(abbr, cs.cfgs[ci]):
+            # a lorem node is possible: the model gets the raw draws of the oracle the implementation ran under
+            ctx.cover('markup:compared-with-lorem-draws')
+            wires.append([2] + enc_config(cs.cfgs[ci], lo.model_draws(abbr, cs.cfgs[ci])) + enc_str(abbr))
+        else:
+            wires.append([2] + enc[ci] + enc_str(abbr))
         idx.append(k)
     outs = model.run(wires)
     dis = 0
@@ -684,6 +691,10 @@ def run_markup(ctx, model_ok=True):
         abbr, ci, tag = cs.items[k]
         mo = decode_expand(w)
         im = impl[k]
+        if im[0] == 'oracle-limit' or (mo[0] == 'outoffuel' and lo.lorem_like(abbr, cs.cfgs[ci]) and im[0] == 'ok'
+                                        and len(im[1]) > 8 * lo.MODEL_DRAWS // 3):
+            ctx.cover('markup:not-compared(lorem text longer than the draws handed to the model)')
+            continue
         if klass(mo) != klass(im):
             dis += 1
             if dis <= 5:
@@ -697,10 +708,6 @@ def run_markup(ctx, model_ok=True):
             if case_mapping_outside_model(abbr, cs.cfgs[ci]):
                 # DESIGN section 2: lower/upper are exact on ASCII and the identity elsewhere in the model
                 ctx.cover('markup:not-text-compared(tagCase/attributeCase with cased non-ASCII letters)')
-                continue
-            if 'Lorem' in mo[1]:
-                # a lorem name assembled by an escape / a variable (`lor\\em5`): the model wrote its marker for the random text
-                ctx.cover('markup:not-compared(lorem, seen in the model output)')
                 continue
             text_diff += 1
             if text_diff <= 12:
